@@ -586,11 +586,14 @@ def run_det(case, M, tier="quick"):
     rejected = [p for p, _ in lang if pred is not None and not pred(p)]
     kindw = [Sym("heap"), frac(thr)] if e["kind"] == "heap" else [Sym("bucket"), e["size"]]
     scriptw = [[Sym("take"), a[1]] if a[0] == "take" else [Sym("merge"), wire.prog(a[1])] for a in script]
-    ans = M.ask([Sym("hs.det"), gw, kindw, [wire.prog(p) for p in rejected], scriptw, FUEL])
+    import inspect
+    from synth.syntax.grammars.enumeration.heap_search import HSEnumerator
+    drops = "not in self.deleted" in inspect.getsource(HSEnumerator.__add_successors__)
+    ans = M.ask([Sym("hs.det"), gw, kindw, [wire.prog(p) for p in rejected], scriptw, FUEL, drops])
     corr = []
     out = {"g": g, "weights": weights, "lang": lang, "steps": steps, "script": script, "err": err, "wmode": res, "pred": pred,
            "stateful": stateful(g), "en": en, "wire": wire, "thr": thr, "corr": corr, "model": None, "rejected": rejected,
-           "fresh": fresh, "pcfg": pcfg}
+           "fresh": fresh, "pcfg": pcfg, "drops": drops}
     if ans[0] == "undef":
         if err is None:
             corr.append(("model undefined (fuel or uncaught exception) where the implementation runs", ""))
@@ -737,14 +740,18 @@ def run_case(case, M, tier="quick"):
 
 
 FINDING_IDS = {"C02": {"start-heap": "C02-F2", "stateful": "C02-F3"}, "C03": {"start-heap": "C03-F1", "stateful": "C03-F2"},
-               "C12": {"start-heap": "C12-F2", "stateful": "C12-F3", "merge": "C12-F1"}}
+               "C12": {"start-heap": "C12-F2", "stateful": "C12-F3", "merge": "C12-F1", "drop-deleted": "C12-F4"}}
 
 
 def finding_of(case, r, pid="C02"):
     """decidable classifiers of the open findings (functions of the case / its grammar / which
     start_query the implementation has — never of the enumerator's output)"""
     if case["family"] == "det":
-        return FINDING_IDS[pid]["stateful"] if r.get("stateful") else None
+        if r.get("stateful"):
+            return FINDING_IDS[pid]["stateful"]
+        if pid == "C12" and r.get("drops") and (case.get("filter") or case.get("merges")):
+            return FINDING_IDS[pid]["drop-deleted"]
+        return None
     if not r.get("fixed") and (r.get("nstarts", 1) >= 2 or case["enum"]["kind"] == "bucket"):
         return FINDING_IDS[pid]["start-heap"]
     return None
